@@ -91,5 +91,45 @@ func (w *World) genesisApp() (res Result) {
 			detail += fmt.Sprintf("first block after the restart (height %d): %s -> %s %s\n", exp.Height, probe, r.Line, r.Detail)
 		}
 	}
+	// the other export mode of the application: for a restart at height zero (app/export.go prepForZeroHeightGenesis). It rewrites
+	// staking, distribution and slashing bookkeeping on a branch of the state that is thrown away; the two modules' sections are the
+	// same as before, and a fresh application starts from the document.
+	if z := w.zeroHeightExport(string(sj), string(oj)); z != "" {
+		same = "zero-height-export-fails"
+		detail += z
+	}
 	return Result{Line: "ok " + same, Detail: detail, Dump: dump}
+}
+
+func (w *World) zeroHeightExport(sj, oj string) (problem string) {
+	defer func() {
+		if p := recover(); p != nil {
+			problem = fmt.Sprintf("zero-height export or the start from it panics: %v\n", p)
+		}
+	}()
+	exp, err := w.A.ExportAppStateAndValidators(true, nil, nil)
+	if err != nil {
+		return fmt.Sprintf("zero-height export: %v\n", err)
+	}
+	var sections map[string]json.RawMessage
+	if err := json.Unmarshal(exp.AppState, &sections); err != nil {
+		return fmt.Sprintf("zero-height export: %v\n", err)
+	}
+	for _, m := range [][2]string{{stypes.ModuleName, sj}, {otypes.ModuleName, oj}} {
+		var b bytes.Buffer
+		if sections[m[0]] == nil || json.Compact(&b, sections[m[0]]) != nil || b.String() != m[1] {
+			problem += fmt.Sprintf("zero-height export of %s: %s\nmodule export: %s\n", m[0], b.String(), m[1])
+		}
+	}
+	b := app.NewSettlus(log.NewNopLogger(), dbm.NewMemDB(), nil, true, map[int64]bool{}, app.DefaultNodeHome, 5,
+		encoding.MakeConfig(app.ModuleBasics), simtestutil.NewAppOptionsWithFlagHome(app.DefaultNodeHome), baseapp.SetChainID(utils.MainnetChainID))
+	b.InitChain(abci.RequestInitChain{ChainId: utils.MainnetChainID, Validators: []abci.ValidatorUpdate{}, ConsensusParams: exp.ConsensusParams,
+		AppStateBytes: exp.AppState, InitialHeight: exp.Height, Time: time.Unix(1700000000, 0).UTC()})
+	cdc := w.A.AppCodec()
+	header := testutil.NewHeader(1, time.Unix(1700000000, 0).UTC(), utils.MainnetChainID, sdk.ConsAddress([]byte("aaaaaaaaaaaaaaaaaaaa")), nil, nil)
+	bctx := b.BaseApp.NewContext(false, header)
+	if sj2 := string(cdc.MustMarshalJSON(settlement.ExportGenesis(bctx, b.SettlementKeeper))); sj2 != sj {
+		problem += fmt.Sprintf("settlement state after a start from the zero-height export: %s\nbefore: %s\n", sj2, sj)
+	}
+	return problem
 }
